@@ -28,6 +28,8 @@ fn ids(class: u64) -> (&'static [&'static str], &'static [&'static str]) {
         4 => (&["#a:example.org", "#\u{e9}:x.y", "#:h"], &["a:example.org", "#a", "", "!a:b"]),
         5 => (&["example.org", "h:8448", "[::1]", "1.2.3.4:80", "a-b.c"], &["", ":80", "a b", "h:port", "[::1", "h:123456"]),
         6 => (&["!r:example.org", "#a:example.org", "!opaque"], &["r", "", "@a:b", "#a"]),
+        7 => (&["AAAA", "aGVsbG8", "ab-_"], &["", "a b", "\u{e9}"]),
+        8 => (&["secret", "a.b=_-9"], &["", "a b", "\u{e9}"]),
         9 => (&["1", "11", "org.example.v", "x"], &["", "123456789012345678901234567890123"]),
         10 => (&["ed25519:1", "ed25519:abc_9", "ed25519:0"], &["ed25519", "ed25519:", ":1", "ed25519:\u{e9}", "ed25519:a b"]),
         _ => (&["x"], &[""]),
@@ -71,14 +73,14 @@ fn wrong_type(r: &mut Rng, v: &Value) -> Value {
     }
 }
 
-struct Cfg {
+pub struct Cfg {
     /// probability (out of 100) of an ill-typed / invalid leaf
-    bad: u64,
+    pub bad: u64,
     /// probability (out of 100) of an unknown extra member per struct
-    extra: u64,
+    pub extra: u64,
 }
 
-fn gen(r: &mut Rng, t: &Value, cfg: &Cfg) -> Value {
+pub fn gen(r: &mut Rng, t: &Value, cfg: &Cfg) -> Value {
     let a = t.as_array().expect("schema node");
     let v = match a[0].as_str().expect("schema tag") {
         "str" => json!(*r.pick(STRS)),
